@@ -118,7 +118,7 @@ void h_run(Case &c) {
     if (!what.empty()) { nmut++; c.desc("\n | " + what); c.cls(("mut:" + what.substr(0, what.find(' '))).c_str()); }
   }
   std::string x = doc.prolog; ser(doc.root, x, 0);
-  if (trunc_escaped) { size_t mp = x.find("ESCV"); if (mp != std::string::npos) x = x.substr(0, std::min(x.size(), mp + trunc_escaped)); }
+  if (trunc_escaped) { size_t mp = x.find("ESCV"); if (mp != std::string::npos) { x = x.substr(0, std::min(x.size(), mp + trunc_escaped)); int tail = d.range(0, 2); if (tail == 1) x += ">"; else if (tail == 2) x += "/>"; } }   // the tag may still be closed: the value then runs into the end of the tag, which is the end of the buffer
   if (trunc) x = x.substr(0, trunc % (x.size() + 1)); if (byteflip && !x.empty()) x[d.raw() % x.size()] = (char)d.range(1, 255);
   // configuration
   unsigned long flags = 0; if (d.chance(1, 3)) flags |= HWLOC_TOPOLOGY_FLAG_INCLUDE_DISALLOWED; if (d.chance(1, 3)) flags |= HWLOC_TOPOLOGY_FLAG_IMPORT_SUPPORT; int fsel = d.range(0, 3); bool viafile = d.chance(1, 4);
